@@ -8,7 +8,7 @@ import re
 from harness import core, htmlnorm, treegen, trees, xdoc
 
 GEN = ['gen_tables', 'gen_regex', 'gen_config', 'gen_escapes', 'gen_core']
-THEOREMS = ['C03_link_phrases', 'C03_link_phrases_instance', 'C03_link_in_sentence', 'C03_fragment_link_instance', 'C03_fragment_seq_document', 'C03_fragment_seq_html', 'C03_fragment_lists_instance', 'C03_fragment_inert_instance', 'C03_fragment_emphasis_instance', 'C03_fragment_rules_instance', 'C03_thematic_break', 'C03_thematic_configs', 'C03_setext_heading', 'C03_setext_hypotheses', 'C03_indented_code_block', 'C03_indented_code_hypotheses', 'C03_link_scanners_are_the_source', 'C03_fragment_parses', 'C03_fragment_token_tree', 'C03_fragment_hypotheses', 'C03_fragment_fuel_suffices', 'C03_fragment_document',
+THEOREMS = ['C03_mixed_phrases', 'C03_mixed_phrases_instance', 'C03_link_phrases', 'C03_link_phrases_instance', 'C03_link_in_sentence', 'C03_fragment_link_instance', 'C03_fragment_seq_document', 'C03_fragment_seq_html', 'C03_fragment_lists_instance', 'C03_fragment_inert_instance', 'C03_fragment_emphasis_instance', 'C03_fragment_rules_instance', 'C03_thematic_break', 'C03_thematic_configs', 'C03_setext_heading', 'C03_setext_hypotheses', 'C03_indented_code_block', 'C03_indented_code_hypotheses', 'C03_link_scanners_are_the_source', 'C03_fragment_parses', 'C03_fragment_token_tree', 'C03_fragment_hypotheses', 'C03_fragment_fuel_suffices', 'C03_fragment_document',
             'C03_fragment_html', 'C03_fragment_markdown_html', 'C03_fragment_html_instance', 'C03_fragment_paragraph_lines_instance', 'C03_fragment_headings_instance', 'C03_outline_lists', 'C03_outline_html', 'C03_outline_instance',
             'C03_fragment_document_markdown', 'C03_fragment_document_configs', 'C03_bounded_trees', 'C03_family_is_not_vacuous']
 TRUSTED = ['harness/treegen.py: the tree grammar, the speller (every free choice drawn and counted) and the direct HTML writer - the independent oracle; '
@@ -575,7 +575,7 @@ def run(ctx, only=None):
                                               'model': 'wf_b = %s, spelled text %r' % (wf, mtext), 'impl': 'a tree of the fragment by the harness generator, spelled %r' % text})
     # the class of C03_link_phrases on the implementation: one sentence with any number of inline links
     from urllib.parse import quote
-    escq = lambda x: x.replace('&', '&amp;').replace('<', '&lt;').replace('>', '&gt;').replace('"', '&quot;')
+    escq = lambda x: x.replace('&', '&amp;').replace('<', '&lt;').replace('>', '&gt;')      # text: quotes stay as they are
     ljobs = []
     for _ in range(400 if ctx.quick() else 8000):
         t0 = rng.choice(['', 'see ', 'a: ', '(', 'x ', 'so, '])
@@ -591,6 +591,28 @@ def run(ctx, only=None):
         if text[0] in ' ' or not text:
             continue
         ljobs.append((text + '\n', '<p>' + exp + '</p>\n'))
+    # ... and the class of C03_mixed_phrases: emphasised phrases and links mixed in one sentence
+    mseps = [' ', ' and ', ', ', '. Then ', ' (', ') ', ': "', '" ', ' — ', '.', ' x y, ', '; ']
+    for _ in range(400 if ctx.quick() else 8000):
+        t0 = rng.choice(['', 'Say ', 'x: ', '(', 'one two. '])
+        text, exp = t0, escq(t0)
+        nseg = rng.randint(2, 6)
+        for i in range(nseg):
+            w = ' '.join(rng.choice(EM_INNER) for _ in range(rng.randint(1, 3)))
+            if rng.random() < 0.5:
+                ch, dbl = rng.choice('*_'), rng.random() < 0.5
+                run_ = ch * (2 if dbl else 1)
+                t = rng.choice(mseps)
+                text += run_ + w + run_ + t
+                exp += (('<strong>%s</strong>' if dbl else '<em>%s</em>') % escq(w)) + escq(t)
+            else:
+                d = rng.choice(LINK_DESTS)
+                t = rng.choice(mseps + ['', ''])
+                text += '[' + w + '](' + d + ')' + t
+                exp += '<a href="%s">%s</a>' % (html_mod.escape(quote(d, safe='/#:()*?=%@+,&;')), escq(w)) + escq(t)
+        text, exp = text.rstrip(' '), exp.rstrip(' ')
+        ljobs.append((text + '\n', '<p>' + exp + '</p>\n'))
+        ctx.count('mixed_sentences')
     with mp.Pool(core.NPROC) as pool:
         lres = pool.map(markdown_worker, [t for t, _ in ljobs], chunksize=50)
     for (text, want), got in zip(ljobs, lres):
